@@ -5,6 +5,7 @@ import (
 	"fmt"
 	"io"
 	"strings"
+	"sync"
 
 	"github.com/gobwas/ws"
 	"github.com/gobwas/ws/wsflate"
@@ -117,6 +118,9 @@ func dest(cfg Config, rec *xport.Rec) io.Writer {
 	return rec
 }
 
+// guards: per writer built on a caller-supplied buffer, a function that looks at the memory behind that buffer.
+var guards sync.Map
+
 // build constructs the writer; ok=false when the constructor legitimately
 // panics for this size ("buffer is too small").
 func build(cfg Config, dst *xport.Rec) (w *wsutil.Writer, model *wops.Model, ok bool) {
@@ -139,7 +143,21 @@ func build(cfg Config, dst *xport.Rec) (w *wsutil.Writer, model *wops.Model, ok 
 	case "NewWriterBufferSize":
 		w = wsutil.NewWriterBufferSize(dest(cfg, dst), st, op, cfg.N)
 	case "NewWriterBuffer":
-		w = wsutil.NewWriterBuffer(dest(cfg, dst), st, op, make([]byte, cfg.N))
+		// the caller's buffer is a slice of something larger (an arena shared with other writers): what lies
+		// beyond len(buf) is not the writer's
+		arena := make([]byte, cfg.N+96)
+		for i := cfg.N; i < len(arena); i++ {
+			arena[i] = 0xCA
+		}
+		w = wsutil.NewWriterBuffer(dest(cfg, dst), st, op, arena[:cfg.N])
+		guards.Store(w, func() int {
+			for i := cfg.N; i < len(arena); i++ {
+				if arena[i] != 0xCA {
+					return i - cfg.N
+				}
+			}
+			return -1
+		})
 	case "GetWriter":
 		w = wsutil.GetWriter(dest(cfg, dst), st, op, cfg.N)
 	}
@@ -171,6 +189,7 @@ func runSeq(c *mon.C, cfg Config, ops []wops.Op, sub string, later ...stage) boo
 			return false
 		}
 	}
+	guards.Delete(w)
 	if cfg.Ctor == "GetWriter" {
 		wsutil.PutWriter(w)
 	}
@@ -192,6 +211,12 @@ func runOps(c *mon.C, w *wsutil.Writer, model *wops.Model, cfg Config, ops []wop
 		c.Logf("op %d: %s (buffered=%d avail=%d size=%d) cfg=%s", i, op, w.Buffered(), w.Available(), w.Size(), cfg)
 		res := wops.Apply(w, op, feed, c.Rng.Int63())
 		trace = append(trace, fmt.Sprintf("%s[k=%d] -> n=%d err=%v buffered=%d avail=%d size=%d", res.Op, res.K, res.N, res.Err, res.Buffered, res.Avail, res.Size))
+		if g, ok := guards.Load(w); ok {
+			if at := g.(func() int)(); at >= 0 {
+				c.Fail("caller-buffer/overrun", fmt.Sprintf("the writer wrote %d byte(s) past the END of the buffer the caller gave it (into the caller's neighbouring memory)", at+1), map[string]interface{}{"config": cfg.String(), "ops": append(trace, res.Op), "failed_at_op": i})
+				return false
+			}
+		}
 		if viol := model.After(op, res, bb, sb); viol != nil {
 			c.Fail(viol.Sig, viol.What, map[string]interface{}{"config": cfg.String(), "ops": trace, "failed_at_op": i, "frames_sent": frameSummary(model.Frames)})
 			return false
